@@ -34,3 +34,17 @@ Theorem C08_flatten_nested : forall f file secs fm, Forall (resolved f) secs -> 
   map (mview fm) (sm_tokens fm) = isort view_key (concat (map sec_views (map (reg f) secs))).
 Proof. exact NestedProofs.C08_flatten_nested. Qed.
 Print Assumptions C08_flatten_nested.
+
+(* first sentence, the clauses about contents and the ignore list: in the flattened map the content of a source is the
+   FIRST content seen for that source name, in section and token order, and a source is ignored exactly when some token of
+   some section resolves to its name through a source that its own section ignores *)
+From SM Require Import Proofs.FlattenContents.
+Theorem C08_contents_ignore : forall f file secs fm,
+  total_tokens secs < NONE ->
+  Forall (fun s => ign_ok (snd s) (sm_tokens (snd s))) secs ->
+  flatten (S f) file (map mk secs) = Ok fm ->
+  forall j s, znth_opt (sm_sources fm) j = Some s ->
+    get_source_contents fm j = gfirst (all_pairs secs) s
+    /\ (In j (sm_ignore fm) <-> gignored (all_pairs secs) s).
+Proof. exact FlattenContents.C08_contents_ignore. Qed.
+Print Assumptions C08_contents_ignore.
